@@ -237,7 +237,8 @@ Local Notation CTXL := (CTXL ts).
 Definition exp_ok (Gd : Z -> Prop) (m : M tree) : Prop :=
   forall p mx n items s', Gd p -> g_chain n true true items (SS p) = Some s' -> CTXL items mx -> follow fexp mx s' ->
   RT ts (m (p, mx)) mx (fun t p' => SS p' = s' /\ p < p' /\ ditems items t = true /\
-                                  (forall x, items = [x] -> den x t = true) /\ isnode t p' /\ exp_shape t).
+                                  (forall x, items = [x] -> den x t = true) /\ isnode t p' /\ exp_shape t /\
+                                  (forall a b sh i j x, items = [Node tExpValue a b sh [Paren i j x]] -> p' = j + 1)).
 
 Definition exp_none (Gd : Z -> Prop) (m : M tree) : Prop :=
   forall p mx, Gd p -> follow fstop mx (SS p) -> m (p, mx) = Ok (PNone, (p, mx)).
@@ -247,7 +248,7 @@ Definition binop_ok (Gd : Z -> Prop) (m : tree -> M tree) : Prop :=
   follow fexp mx s' -> isnode first p -> exp_shape first ->
   RT ts (m first (p, mx)) mx (fun t p' => SS p' = s' /\ p <= p' /\
        (exists ys, flat_exp (view t) = flat_exp (view first) ++ ys /\ all2d items ys = true) /\
-       (items = [] -> t = first) /\ isnode t p' /\ exp_shape t).
+       (items = [] -> t = first /\ p' = p) /\ isnode t p' /\ exp_shape t).
 
 Definition chunk_ok (Gd : Z -> Prop) (m : M tree) : Prop :=
   forall p mx n g s', Gd p -> g_chunk n g (SS p) = Some s' -> CTX g mx -> follow fblock mx s' ->
@@ -303,7 +304,7 @@ Definition precur_ok (Gd : Z -> Prop) (m : tree -> M tree) : Prop :=
   forall l first gfirst p mx s', Gd p -> g_sufs l (SS p) = Some s' -> Forall (sfx_ok ts mx) l -> follow fcont mx s' ->
   den gfirst first = true -> is_hidden first = false -> is_none first = false ->
   RT ts (m first (p, mx)) mx (fun t p' => SS p' = s' /\ p <= p' /\ den (wraps gfirst l) t = true /\
-                                       (l = [] -> t = first) /\ is_hidden t = false /\ is_none t = false).
+                                       (l = [] -> t = first /\ p' = p) /\ is_hidden t = false /\ is_none t = false).
 
 Record comp (Gd : Z -> Prop) (R : funs) : Prop := mkComp {
   c_exp : exp_ok Gd (r_exp R);
@@ -430,9 +431,29 @@ Lemma R_exp p mx n g s' : G p -> g_exp n g (SS p) = Some s' -> CTX g mx -> follo
   RT ts (r_exp R (p, mx)) mx (fun t p' => SS p' = s' /\ p < p' /\ den g t = true /\ isnode t p' /\ exp_shape t).
 Proof.
   intros HG Hg HC Hf. destruct (g_exp_items _ _ _ _ Hg) as (m & Hm).
-  destruct (c_exp _ _ HR p mx m (items_of g) s' HG Hm (CTX_items ts g mx HC) Hf) as (t & p' & E & Hl' & Q1 & Q2 & Q3 & Q4 & Q5 & Q6).
+  destruct (c_exp _ _ HR p mx m (items_of g) s' HG Hm (CTX_items ts g mx HC) Hf) as (t & p' & E & Hl' & Q1 & Q2 & Q3 & Q4 & Q5 & Q6 & Q7).
   exists t, p'. split; [exact E|]. split; [exact Hl'|]. repeat split; try assumption.
   apply den_of_items; try assumption. eexists _, _, _. exact Hg.
+Qed.
+
+(* the condition of a one-line if: the cursor ends right after the closing parenthesis *)
+Lemma R_exp_paren p mx n i j x s' : G p -> g_prefix n (Paren i j x) (SS p) = Some s' -> CTX (Paren i j x) mx -> follow fexp mx s' ->
+  RT ts (r_exp R (p, mx)) mx (fun t p' => SS p' = s' /\ p < p' /\ den (Node tExpValue 0 0 false [Paren i j x]) t = true /\
+                                        isnode t p' /\ exp_shape t /\ p' = j + 1).
+Proof.
+  intros HG Hg HC Hf.
+  assert (Hm : g_chain (S (S n)) true true [Node tExpValue 0 0 false [Paren i j x]] (SS p) = Some s').
+  { cbn [g_chain]. change (g_operand (S n) (Node tExpValue 0 0 false [Paren i j x]) (SS p)) with (g_prefix n (Paren i j x) (SS p)).
+    rewrite Hg. reflexivity. }
+  assert (HCi : CTXL [Node tExpValue 0 0 false [Paren i j x]] mx).
+  { constructor; [|constructor]. destruct HC as (H1 & H2 & H3 & H4). split; [|split; [|split]].
+    - cbn [in_frag forallb]. change (in_frag (Paren i j x)) with (in_frag x). cbn [in_frag] in H1. rewrite H1. reflexivity.
+    - cbn [tokdata_ok forallb]. cbn [tokdata_ok] in H2. rewrite H2. reflexivity.
+    - intros y Hy. apply H3. cbn [short_ifs flat_map app] in Hy. rewrite app_nil_r in Hy. exact Hy.
+    - intros y Hy. apply H4. rewrite leaves_node1 in Hy. exact Hy. }
+  destruct (c_exp _ _ HR p mx _ _ s' HG Hm HCi Hf) as (t & p' & E & Hl' & Q1 & Q2 & Q3 & Q4 & Q5 & Q6 & Q7).
+  exists t, p'. split; [exact E|]. split; [exact Hl'|]. split; [exact Q1|]. split; [exact Q2|].
+  split; [apply Q4; reflexivity|]. split; [exact Q5|]. split; [exact Q6|]. eapply Q7. reflexivity.
 Qed.
 
 Lemma sep_tail_follow (item : tree -> stream -> option stream) mx r s2 s' :
@@ -792,7 +813,7 @@ Proof.
   destruct l as [|[n [[[[tag a] b] sh] rest]] r]; cbn [g_sufs] in Hg.
   - injection Hg as <-. miss. miss. rewrite (bind_ok _ _ _ _ _ (L_args_none p mx Hp0 ltac:(fw))).
     cbn [is_none strip_paren negb]. miss. rewrite ret_eq. apply RT_ok; [lia|].
-    split; [reflexivity|]. split; [lia|]. split; [exact Hd|]. split; [reflexivity|]. split; assumption.
+    split; [reflexivity|]. split; [lia|]. split; [exact Hd|]. split; [intros _; split; reflexivity|]. split; assumption.
   - osplit Hg E. apply Forall_cons_iff in HS. destruct HS as [HS0 HS']. unfold sfx_ok in HS0. cbv beta iota in HS0.
     destruct HS0 as [HCr ->]. unfold g_suf in E.
     gtag E tVarIndex.
@@ -853,8 +874,14 @@ Proof.
     destruct HC1 as [HCb HCr]. split; [exact HCb|]. constructor; [split; [exact HCr | reflexivity] | exact HF].
 Qed.
 
+Lemma wraps_not_paren : forall l tag a b sh fs i j x, wraps (Node tag a b sh fs) l <> Paren i j x.
+Proof.
+  induction l as [|[n [[[[tg a0] b0] sh0] rest]] l IH]; intros tag a b sh fs i j x; cbn [wraps wrap1]; [discriminate | apply IH].
+Qed.
+
 Lemma L_prefixexp p mx n g s' : G' p -> g_prefix n g (SS p) = Some s' -> CTX g mx -> follow fcont mx s' ->
-  RT ts (prefixexp_def ts R (p, mx)) mx (fun t p' => SS p' = s' /\ p < p' /\ den g t = true /\ is_hidden t = false /\ is_none t = false).
+  RT ts (prefixexp_def ts R (p, mx)) mx (fun t p' => SS p' = s' /\ p < p' /\ den g t = true /\ is_hidden t = false /\ is_none t = false /\
+                                                    (forall i j x, g = Paren i j x -> p' = j + 1)).
 Proof.
   intros HG Hg HC Hf. destruct HG as [Hp0 HGk]. apply spine in Hg. destruct Hg as (nb & base & l & s0 & -> & Hb & Hl).
   destruct (CTX_wraps_ok mx _ _ _ _ HC Hl) as [HCb HS]. unfold prefixexp_def. prim. unfold g_base in Hb.
@@ -864,7 +891,7 @@ Proof.
       eapply RT_conseq; [eapply (L_precur l _ gb); [gd | exact Hl | exact HS | exact Hf | | reflexivity | reflexivity]|] end.
     + den_side.
     + cbv beta. intros tr p' Hl_px (Q6 & Q7 & Q8 & Q9 & Q10 & Q11). split; [exact Q6|]. split; [lia|].
-      split; [exact Q8|]. split; assumption.
+      split; [exact Q8|]. split; [assumption|]. split; [assumption|]. intros i1 j1 x1 Hx. exfalso. eapply wraps_not_paren, Hx.
   - apply CTX_paren in HCb. destruct HCb as (HCx & Hl1 & Hl2). osplit Hb E1. osplit Hb E2.
     apply eat_sym_inv in E1. destruct E1 as (t & Hs & Hk). destruct (spos ts p oi t s Hp0 Hs) as (Hle & Hlt & Hn). subst s.
     pose proof (follow_known ts _ mx _ _ _ _ Hs Hk) as Hf0. miss. hit.
@@ -876,7 +903,9 @@ Proof.
     eapply RT_conseq; [eapply (L_precur l _ (Paren oi oj x)); [gd | exact Hl | exact HS | exact Hf | | reflexivity | exact Qn]|].
     + exact Q3.
     + cbv beta. intros tr p' Hl_px (Q6 & Q7 & Q8 & Q9 & Q10 & Q11). split; [exact Q6|]. split; [lia|].
-      split; [exact Q8|]. split; assumption.
+      split; [exact Q8|]. split; [assumption|]. split; [assumption|]. intros i1 j1 x1 Hx.
+      destruct l as [|[n1 [[[[tg a0] b0] sh0] rest]] l]; [|exfalso; cbn [wraps wrap1] in Hx; eapply wraps_not_paren, Hx].
+      cbn [wraps] in Hx. injection Hx as _ <- _. destruct (Q9 eq_refl) as [_ ->]. reflexivity.
 Qed.
 
 (* ---------------------------------------------------------------- operands *)
@@ -884,7 +913,8 @@ Local Notation exp_term := (exp_term_def ts lua_unops R).
 
 Lemma L_exp_term_operand p mx n g s' : G' p -> g_operand n g (SS p) = Some s' -> CTX g mx -> follow fcont mx s' ->
   RT ts (exp_term (p, mx)) mx (fun t p' => SS p' = s' /\ p < p' /\ den g t = true /\ isnode t p' /\ exp_shape t /\
-                                       flat_exp (view t) = [view t]).
+                                       flat_exp (view t) = [view t] /\
+                                       (forall a0 b0 sh0 i j x, g = Node tExpValue a0 b0 sh0 [Paren i j x] -> p' = j + 1)).
 Proof.
   intros HG Hg HC Hf. destruct HG as [Hp0 HGk]. destruct n; [discriminate|]. cbn [g_operand] in Hg.
   destruct g as [tag a b sh fs| | | | | | | |]; try discriminate. unfold exp_term_def. prim.
@@ -919,18 +949,20 @@ Proof.
                                        | None => ret p0
                                        end)))
                           end end end end end end) (p, mx)) mx
-     (fun t p' => SS p' = s' /\ p < p' /\ den (Node tag a b sh fs) t = true /\ isnode t p' /\ exp_shape t /\ flat_exp (view t) = [view t])).
+     (fun t p' => SS p' = s' /\ p < p' /\ den (Node tag a b sh fs) t = true /\ isnode t p' /\ exp_shape t /\ flat_exp (view t) = [view t] /\
+        (forall a0 b0 sh0 i j x, Node tag a b sh fs = Node tExpValue a0 b0 sh0 [Paren i j x] -> p' = j + 1))).
   { intros x Hx HCx -> -> ->. pose proof (g_prefix_head _ _ _ _ Hx) as Hh.
     assert (Hf0 : follow (anyof prefix_first) mx (SS p)) by (fhd Hh). repeat miss.
     rewrite (bind_ok _ _ _ _ _ (L_function_none p mx Hp0 ltac:(fw))). cbn [is_none strip_paren negb].
     eapply RT_bind; [eapply L_prefixexp; [split; assumption | exact Hx | exact HCx | exact Hf]|].
-    cbv beta. intros p1 q1 Hl_q1 (Q1 & Q2 & Q3 & Q4 & Q5). rewrite Q5. cbn [negb]. rewrite mk_eq. apply RT_ok; [lia|].
+    cbv beta. intros p1 q1 Hl_q1 (Q1 & Q2 & Q3 & Q4 & Q5 & Qp). rewrite Q5. cbn [negb]. rewrite mk_eq. apply RT_ok; [lia|].
     split; [exact Q1|]. split; [lia|]. split; [den_side|]. split; [eexists _, _, _; reflexivity|].
-    split; [shape_ev|]. rewrite view_node. apply flat_exp_other; reflexivity. }
+    split; [shape_ev|]. split; [rewrite view_node; apply flat_exp_other; reflexivity|].
+    intros a0 b0 sh0 i j x0 Hx0. injection Hx0 as _ _ _ Hx0. eapply Qp. exact Hx0. }
   gtag Hg tVarargDots.
   { gmatch Hg. open_node. tinv Hg. repeat miss. hit. rewrite mk_eq. apply RT_ok; [lia|].
     split; [reflexivity|]. split; [lia|]. split; [den_side|]. split; [eexists _, _, _; reflexivity|].
-    split; [shape_no|]. rewrite view_node. apply flat_exp_other; reflexivity. }
+    split; [shape_no|]. split; [rewrite view_node; apply flat_exp_other; reflexivity|]. intros a0 b0 sh0 i1 j1 x1 Hx1; discriminate Hx1. }
   gtag Hg tExpValue. destruct fs as [|x [|y [|? ?]]]; try discriminate; try (exfalso; gmatch Hg; fail).
   - destruct x as [t2 xa xb xsh xfs|i0 t0| | | | | |oi oj x|]; try discriminate.
     + pose proof (CTX_sh ts _ _ _ _ _ _ HC eq_refl) as ->. pose proof HC as HC'. apply CTX_node in HC'. ctx_split HC'.
@@ -940,7 +972,7 @@ Proof.
         eapply RT_bind; [eapply L_function; [split; assumption | exact Hg | eassumption]|].
         cbv beta. intros f1 q1 Hl_q1 (Q1 & Q2 & Q3 & Q4 & Q5). rewrite Q4. cbn [negb]. rewrite mk_eq. apply RT_ok; [lia|].
         split; [exact Q1|]. split; [lia|]. split; [den_side|]. split; [eexists _, _, _; reflexivity|].
-        split; [shape_ev|]. rewrite view_node. apply flat_exp_other; reflexivity. }
+        split; [shape_ev|]. split; [rewrite view_node; apply flat_exp_other; reflexivity|]. intros a0 b0 sh0 i1 j1 x1 Hx1; discriminate Hx1. }
       gtag Hg tTableConstructor.
       { pose proof (g_table_head _ _ _ _ Hg) as Hh.
         assert (Hf0 : follow (anyof [psym "{"%bs]) mx (SS p)) by (fhd Hh). repeat miss.
@@ -949,20 +981,20 @@ Proof.
         eapply RT_bind; [eapply L_table; [split; assumption | exact Hg | eassumption]|].
         cbv beta. intros f1 q1 Hl_q1 (Q1 & Q2 & Q3 & Q4 & Q5). rewrite Q4. cbn [negb]. rewrite mk_eq. apply RT_ok; [lia|].
         split; [exact Q1|]. split; [lia|]. split; [den_side|]. split; [eexists _, _, _; reflexivity|].
-        split; [shape_ev|]. rewrite view_node. apply flat_exp_other; reflexivity. }
+        split; [shape_ev|]. split; [rewrite view_node; apply flat_exp_other; reflexivity|]. intros a0 b0 sh0 i1 j1 x1 Hx1; discriminate Hx1. }
       eapply Hpre; [exact Hg | eassumption | reflexivity | reflexivity | reflexivity].
     + open_node. destruct (tokc CNumber (Tok i0 t0) (SS p)) eqn:E.
       * injection Hg as <-. tinv E. repeat miss. hit. rewrite mk_eq. apply RT_ok; [lia|].
         split; [reflexivity|]. split; [lia|]. split; [den_side|]. split; [eexists _, _, _; reflexivity|].
-        split; [shape_ev|]. rewrite view_node. apply flat_exp_other; reflexivity.
+        split; [shape_ev|]. split; [rewrite view_node; apply flat_exp_other; reflexivity|]. intros a0 b0 sh0 i1 j1 x1 Hx1; discriminate Hx1.
       * tinv Hg. repeat miss. hit. rewrite mk_eq. apply RT_ok; [lia|].
         split; [reflexivity|]. split; [lia|]. split; [den_side|]. split; [eexists _, _, _; reflexivity|].
-        split; [shape_ev|]. rewrite view_node. apply flat_exp_other; reflexivity.
+        split; [shape_ev|]. split; [rewrite view_node; apply flat_exp_other; reflexivity|]. intros a0 b0 sh0 i1 j1 x1 Hx1; discriminate Hx1.
     + pose proof (CTX_sh ts _ _ _ _ _ _ HC eq_refl) as ->. pose proof HC as HC'. apply CTX_node in HC'. ctx_split HC'.
       eapply Hpre; [exact Hg | eassumption | reflexivity | reflexivity | reflexivity].
   - open_node. gmatch Hg; tinv Hg; repeat miss; hit; rewrite mk_eq; (apply RT_ok; [lia|]);
       (split; [reflexivity|]; split; [lia|]; split; [den_side|]; split; [eexists _, _, _; reflexivity|];
-       split; [shape_ev|]; rewrite view_node; apply flat_exp_other; reflexivity).
+       split; [shape_ev|]; split; [rewrite view_node; apply flat_exp_other; reflexivity|]; intros a0 b0 sh0 i1 j1 x1 Hx1; discriminate Hx1).
 Qed.
 
 (* ---------------------------------------------------------------- operator chains *)
@@ -983,6 +1015,7 @@ Lemma L_exp_term_chain p mx n items s' : G' p -> g_chain n true true items (SS p
   follow fexp mx s' ->
   RT ts (exp_term (p, mx)) mx (fun t p' => p < p' /\ isnode t p' /\ exp_shape t /\
        (forall x, items = [x] -> den x t = true) /\
+       (forall a b sh i j x, items = [Node tExpValue a b sh [Paren i j x]] -> p' = j + 1) /\
        exists items1 items2 m, items = items1 ++ items2 /\ items1 <> [] /\ all2d items1 (flat_exp (view t)) = true /\
                                g_chain m false true items2 (SS p') = Some s').
 Proof.
@@ -991,12 +1024,13 @@ Proof.
   assert (Hop : (s <~ g_operand n x (SS p) ;; g_chain n false true r s) = Some s' ->
     RT ts (exp_term (p, mx)) mx (fun t p' => p < p' /\ isnode t p' /\ exp_shape t /\
        (forall x0, x :: r = [x0] -> den x0 t = true) /\
+       (forall a b sh i j x1, x :: r = [Node tExpValue a b sh [Paren i j x1]] -> p' = j + 1) /\
        exists items1 items2 m, x :: r = items1 ++ items2 /\ items1 <> [] /\ all2d items1 (flat_exp (view t)) = true /\
                                g_chain m false true items2 (SS p') = Some s')).
   { clear Hg. intros Hg. osplit Hg E.
     eapply RT_conseq; [eapply L_exp_term_operand; [exact HG | exact E | exact HCx | eapply chain_rest_follow; eassumption]|].
-    cbv beta. intros t1 p1 Hl_p1 (Q1 & Q2 & Q3 & Q4 & Q5 & Q6). subst s. split; [exact Q2|]. split; [exact Q4|]. split; [exact Q5|].
-    split; [intros x0 [= <- _]; exact Q3|]. exists [x], r, n. split; [reflexivity|]. split; [discriminate|]. split; [|exact Hg].
+    cbv beta. intros t1 p1 Hl_p1 (Q1 & Q2 & Q3 & Q4 & Q5 & Q6 & Qp). subst s. split; [exact Q2|]. split; [exact Q4|]. split; [exact Q5|].
+    split; [intros x0 [= <- _]; exact Q3|]. split; [intros a0 b0 sh0 i0 j0 x0 [= -> _]; eapply Qp; reflexivity|]. exists [x], r, n. split; [reflexivity|]. split; [discriminate|]. split; [|exact Hg].
     rewrite Q6. rewrite all2d_cons. rewrite (denotes_not_hidden _ _ Q3). unfold den in Q3. rewrite Q3. reflexivity. }
   destruct x as [| i0 t0 | | | | | | |]; try (apply Hop, Hg). clear Hop.
   destruct (tokp is_unop (Tok i0 t0) (SS p)) eqn:E; [|discriminate]. destruct HG as [Hp0 HGk].
@@ -1015,6 +1049,7 @@ Proof.
   rewrite bind_assert by exact Qn. rewrite mk_eq. apply RT_ok; [lia|].
   split; [lia|]. split; [eexists _, _, _; reflexivity|]. split; [shape_no|].
   split; [intros x0 [= <- E0]; subst r; destruct n; discriminate Hg|].
+  split; [intros a0 b0 sh0 i1 j1 x1 Hx1; discriminate Hx1|].
   exists (Tok i0 t0 :: r), [], 1%nat. split; [rewrite app_nil_r; reflexivity|]. split; [discriminate|].
   split; [|rewrite Q1; reflexivity].
   rewrite view_node, views2 by exact Qh. rewrite flat_exp_unop, all2d_cons. cbn [is_hidden denotes].
@@ -1031,14 +1066,14 @@ Proof.
     rewrite (bind_accept_first_miss ts fexp lua_binops _ p mx lua_binops_nt Hp0 Hf
                ltac:(intros k0 H0; eapply nomatch_sub; [|exact H0]; vm_compute; reflexivity)). cbv beta iota zeta.
     prim. rewrite ret_eq. apply RT_ok; [lia|]. split; [reflexivity|]. split; [lia|].
-    split; [exists []; split; [rewrite app_nil_r; reflexivity | reflexivity]|]. split; [reflexivity|]. split; assumption.
+    split; [exists []; split; [rewrite app_nil_r; reflexivity | reflexivity]|]. split; [intros _; split; reflexivity|]. split; assumption.
   - osplit Hg E. apply CTXL_cons in HC. destruct HC as [HCb HCr].
     apply tokp_inv in E. destruct E as (i & t0 & t & -> & Hs & Hu). rewrite is_binop_anyof in Hu.
     destruct (spos ts p i t s Hp0 Hs) as (Hle & Hlt & Hn). subst s. pose proof (CTX_tok ts _ _ _ HCb) as Hlim.
     rewrite (bind_accept_first_hit ts lua_binops _ p mx i t _ lua_binops_nt Hp0 Hs Hlim
                ltac:(eapply anyof_sub; [|exact Hu]; vm_compute; reflexivity)). cbv beta iota zeta.
     eapply RT_bind; [eapply L_exp_term_chain; [gd | exact Hg | exact HCr | exact Hf]|].
-    cbv beta. intros t1 p1 Hl_p1 (Q1 & Q2 & Q3 & Q4 & items1 & items2 & m & -> & Q5 & Q6 & Q7).
+    cbv beta. intros t1 p1 Hl_p1 (Q1 & Q2 & Q3 & Q4 & Qp & items1 & items2 & m & -> & Q5 & Q6 & Q7).
     destruct (isnode_facts _ _ Q2) as (Qh & Qn & _). rewrite bind_assert by exact Qn. prim.
     apply CTXL_app in HCr. destruct HCr as [HC1 HC2]. destruct (isnode_facts _ _ Hnode) as (Fh & Fn & _).
     eapply RT_conseq; [eapply (c_binop _ _ HR (Node tExpBinOp p p1 false [first; Tok i t; t1])); [gd | exact Q7 | exact HC2 | exact Hf | eexists _, _, _; reflexivity | shape_no]|].
@@ -1059,14 +1094,16 @@ Lemma L_exp : exp_ok G' (exp_def ts lua_binops lua_unops R).
 Proof.
   intros p mx n items s' HG Hg HC Hf. unfold exp_def.
   eapply RT_bind; [eapply L_exp_term_chain; [exact HG | exact Hg | exact HC | exact Hf]|].
-  cbv beta. intros t1 p1 Hl_p1 (Q1 & Q2 & Q3 & Q4 & items1 & items2 & m & -> & Q5 & Q6 & Q7).
+  cbv beta. intros t1 p1 Hl_p1 (Q1 & Q2 & Q3 & Q4 & Qp & items1 & items2 & m & -> & Q5 & Q6 & Q7).
   destruct (isnode_facts _ _ Q2) as (Qh & Qn & _). rewrite Qn.
   apply CTXL_app in HC. destruct HC as [HC1 HC2]. destruct HG as [Hp0 HGk].
   eapply RT_conseq; [eapply (L_binop t1); [gd | exact Q7 | exact HC2 | exact Hf | exact Q2 | exact Q3]|].
   cbv beta. intros t2 p2 Hl_p2 (Q8 & Q9 & (ys & Q10 & Q11) & Q12 & Q13 & Q14).
   split; [exact Q8|]. split; [lia|]. split; [unfold ditems; rewrite Q10; apply all2d_app; assumption|].
-  split; [|split; assumption]. intros x Hx. pose proof (app_single _ _ _ Hx Q5) as ->. rewrite (Q12 eq_refl).
-  apply Q4. exact Hx.
+  split; [intros x Hx; pose proof (app_single _ _ _ Hx Q5) as ->; destruct (Q12 eq_refl) as [-> _]; apply Q4; exact Hx|].
+  split; [assumption|]. split; [assumption|].
+  intros a0 b0 sh0 i0 j0 x0 Hx. pose proof (app_single _ _ _ Hx Q5) as ->. destruct (Q12 eq_refl) as [_ ->].
+  eapply Qp. exact Hx.
 Qed.
 
 Lemma L_exp_none : exp_none G' (exp_def ts lua_binops lua_unops R).
